@@ -31,6 +31,11 @@ type c09Listener struct {
 func VerifC09(tmpl string, maxCycle int) {
 	L := func(s string) string { return s + "@" + tmpl }
 	lib := zzkb.LoadLibrary(tmpl)
+	if tbViaGRB {
+		// "every successfully built OR LOADED knowledge base": the library under test is the one loaded back from the GRB image
+		lib = reloadLibrary(lib)
+		tmpl += "/loaded-from-GRB"
+	}
 	bp := lib.GetKnowledgeBase("T", "1")
 
 	verif.FootprintBegin("create1")
@@ -113,4 +118,10 @@ func VerifC09(tmpl string, maxCycle int) {
 func VerifC09Set(set string, maxCycle int) {
 	ts := tbSets[set]
 	VerifC09(ts[verif.Choice("template", len(ts))], maxCycle)
+}
+
+// VerifC09SetLoaded: the same on libraries loaded back from their GRB image.
+func VerifC09SetLoaded(set string, maxCycle int) {
+	tbViaGRB = true
+	VerifC09Set(set, maxCycle)
 }
